@@ -4,6 +4,8 @@ import Vflow.Model.V9
 import Vflow.Props.C03
 import Vflow.Props.C06
 import Vflow.Gen.CacheKey
+import Vflow.Props.C05
+import Vflow.Proofs.PipelineSeq
 /-!
 # C04 — data is decoded only with the same exporter's latest template
 
@@ -327,5 +329,235 @@ example :
     (runAnn [] [([10,0,0,1], 256, tA), ([10,0,0,2], 256, tB), ([10,0,0,1], 256, tA')]).lookup [10,0,0,1] 256 = some tA' ∧
     (runAnn [] [([10,0,0,1], 256, tA), ([10,0,0,2], 256, tB), ([10,0,0,1], 256, tA')]).lookup [10,0,0,2] 256 = some tB := by
   decide
+
+/-! ## At the collector: the worker pool (finding K5) and the one-worker case
+
+Everything above is about the sequential `Decode` API.  At the collector (`vflow/ipfix.go`, `run`) the datagrams are
+taken from ONE UDP channel by N concurrent workers that share ONE template cache.  The pipeline model
+(`Model/Pipeline.lean`, C12 / C13) has exactly this structure: a schedule is a list of `Action`s (`run`) resp. a `Reach`
+derivation, the worker program is the regenerated `Gen.ipfixWorker`, and the ghost log records `received d`,
+`decoded id cache result` and `published id payload` events.  Read oldest first: `arrivals log` (the datagrams in
+arrival order) and `decodes log` (the decodes in the order in which they happened); the sequential semantics is
+`decodeAll K c0 ds` (decode one after the other, threading the cache) with `cacheAfter K c0 ds` the cache it leaves.
+
+* `k5_two_workers_counterexample` (+ `…_ipfix`): with TWO workers the property fails in the model — the model-level
+  witness of finding K5.
+* `one_worker_in_order`, `one_worker_published_sequential`: with at most ONE worker every schedule decodes in arrival
+  order against the sequentially threaded cache, for every codec and every `Canonical` worker program.
+* `one_worker_latest_template`: hence, for the IPFIX decoder model, C04 holds at the collector with one worker.  -/
+section Collector
+open Vflow.Pipeline Vflow.C12
+
+variable {K : Codec} {cfg : Cfg} {spec : CountSpec}
+
+/-- a toy template codec that makes the definition used visible: the cache maps (exporter, template id) to the
+number of the definition announced last (an association list, newest first); the datagram `[0, id, df]` announces
+definition `df` for `id` (a message without data, like an IPFIX message carrying only a template set); the datagram
+`[1, id, v]` is data for `id`: it decodes to `[id, df, v]` — naming the definition `df` the cache holds for this
+exporter and id at that moment — or to no message when there is none; the payload is the message itself -/
+@[reducible] def tplToy : Codec where
+  Cache := List ((Bytes × UInt8) × UInt8)
+  Msg := Bytes
+  decode := fun c addr bs =>
+    match bs with
+    | [0, id, df] => (some [], ((addr, id), df) :: c)
+    | [1, id, v] =>
+      match c.lookup (addr, id) with
+      | some df => (some [id, df, v], c)
+      | none => (none, c)
+    | _ => (none, c)
+  hasData := fun m => !m.isEmpty
+  marshal := fun m => some m
+
+instance : DecidableEq tplToy.Cache := inferInstanceAs (DecidableEq (List ((Bytes × UInt8) × UInt8)))
+instance : DecidableEq tplToy.Msg := inferInstanceAs (DecidableEq Bytes)
+
+/-- (0, id) for `received`, (1, id) for `decoded`: the skeleton of the log the K5 witness is about -/
+def evTag : Event K → Option (Nat × Nat)
+  | .received d => some (0, d.id)
+  | .decoded id _ _ => some (1, id)
+  | _ => none
+
+/-- the schedule of the K5 witness: two workers are started; the read loop receives the three datagrams `dA`, `dB`,
+`dD` of exporter `x` in this order (all three are in the UDP channel, in arrival order, before any worker runs); worker 0
+handles `dA` completely (11 steps), takes `dB` from the channel and stops right in front of its `decode` (5 steps);
+worker 1 takes `dD`, decodes and publishes it (15 steps); only then worker 0 goes on and decodes `dB`; the MQ consumer
+reads the one published message -/
+def k5Schedule (x dA dB dD : Bytes) : List Action :=
+  [.spawn none, .spawn none] ++ feed x dA ++ feed x dB ++ feed x dD ++
+    works 0 16 ++ works 1 15 ++ works 0 12 ++ [.mqConsume]
+
+/-- the same three datagrams handled by ONE worker (three full iterations) -/
+def oneWorkerSchedule (x dA dB dD : Bytes) : List Action :=
+  [.spawn none] ++ feed x dA ++ feed x dB ++ feed x dD ++ works 0 45 ++ [.mqConsume]
+
+/-- **finding K5, model-level witness** (a COUNTEREXAMPLE to C04 at the collector for the code as it is — not a property
+of a repaired code): a kernel-checked run of the pipeline semantics with the worker program the current source has
+(`Gen.ipfixWorker`), TWO workers, ONE exporter 192.0.2.1 and three datagrams — announce template 7 with definition
+`0xA`, re-announce template 7 with definition `0xB`, data for template 7 — under `k5Schedule`.  All three datagrams are
+received, in this order, before anything is decoded (log skeleton); the data datagram (id 2) is decoded BEFORE the
+re-announcement (id 1), against a cache that holds definition `0xA`; what is published and delivered for it is
+`[7, 0xA, 42]` — the payload the superseded definition gives — although `0xB` was received before it; the sequential
+semantics of the same arrivals (`decodeAll`, what `refinement` / `ipfix_history_roundtrip` are about) decodes it against
+the cache holding `0xB` and yields `[7, 0xB, 42]`.  Codec: `tplToy`. -/
+theorem k5_two_workers_counterexample :
+    let s := run (K := tplToy) { prog := Gen.ipfixWorker } (init tplToy [] (fun _ => []))
+      (k5Schedule [192, 0, 2, 1] [0, 7, 0xA] [0, 7, 0xB] [1, 7, 42])
+    s.workers.length = 2 ∧
+    (arrivals s.log).map (fun d => (d.id, d.addr, d.bytes)) =
+      [(0, [192, 0, 2, 1], [0, 7, 0xA]), (1, [192, 0, 2, 1], [0, 7, 0xB]), (2, [192, 0, 2, 1], [1, 7, 42])] ∧
+    s.log.reverse.filterMap evTag = [(0, 0), (0, 1), (0, 2), (1, 0), (1, 2), (1, 1)] ∧
+    decodes s.log =
+      [(0, [], some []),
+       (2, [(([192, 0, 2, 1], 7), 0xA)], some [7, 0xA, 42]),
+       (1, [(([192, 0, 2, 1], 7), 0xA)], some [])] ∧
+    s.delivered = [(2, [7, 0xA, 42])] ∧
+    decodeAll tplToy [] (arrivals s.log) =
+      [(0, [], some []),
+       (1, [(([192, 0, 2, 1], 7), 0xA)], some []),
+       (2, [(([192, 0, 2, 1], 7), 0xB), (([192, 0, 2, 1], 7), 0xA)], some [7, 0xB, 42])] ∧
+    decodes s.log ≠ decodeAll tplToy [] (arrivals s.log) := by
+  decide
+
+/-- the state of the witness is reachable (every `run` is a `Reach` derivation), so it refutes the conclusion of
+`one_worker_in_order` for two workers: no prefix of the sequential semantics is the list of decodes -/
+theorem k5_two_workers_not_in_order :
+    ∃ s : State tplToy, Reach { prog := Gen.ipfixWorker } (init tplToy [] (fun _ => [])) s ∧ s.workers.length = 2 ∧
+      ¬ ∃ n, decodes s.log = (decodeAll tplToy [] (arrivals s.log)).take n := by
+  refine ⟨_, reach_run _ _ (k5Schedule [192, 0, 2, 1] [0, 7, 0xA] [0, 7, 0xB] [1, 7, 42]), by decide, ?_⟩
+  rintro ⟨n, hn⟩
+  have h1 := congrArg (fun l => (l.map (·.1))[1]?) hn
+  have h3 : ∀ n, ((List.take n ([0, 1, 2] : List Nat))[1]? = some 2) → False := by
+    intro n; match n with
+    | 0 => simp
+    | 1 => simp
+    | n+2 => simp
+  refine h3 n ?_
+  have e1 : (decodes (run (K := tplToy) { prog := Gen.ipfixWorker } (init tplToy [] (fun _ => []))
+      (k5Schedule [192, 0, 2, 1] [0, 7, 0xA] [0, 7, 0xB] [1, 7, 42])).log).map (·.1) = [0, 2, 1] := by decide
+  have e2 : (decodeAll tplToy [] (arrivals (run (K := tplToy) { prog := Gen.ipfixWorker } (init tplToy [] (fun _ => []))
+      (k5Schedule [192, 0, 2, 1] [0, 7, 0xA] [0, 7, 0xB] [1, 7, 42])).log)).map (·.1) = [0, 1, 2] := by decide
+  simp only [List.map_take, e1, e2] at h1
+  simpa using h1.symm
+
+/-! ### the same witness on real IPFIX octets, decoded by the IPFIX decoder model -/
+
+/-- template 256, definition A: one field, sourceIPv4Address (element 8, 4 octets) -/
+def k5TplA : Template := ⟨256, 1, 0, [], [⟨8, 4, 0⟩]⟩
+/-- template 256, definition B: one field, destinationIPv4Address (element 12, 4 octets) -/
+def k5TplB : Template := ⟨256, 1, 0, [], [⟨12, 4, 0⟩]⟩
+/-- the three messages of the exporter: announce A; re-announce B; one data record, encoded with B (its latest) -/
+def k5MsgA : Wire.Ipfix.Msg := ⟨1000, 0, 1, [.tpl [k5TplA] []]⟩
+def k5MsgB : Wire.Ipfix.Msg := ⟨1001, 0, 1, [.tpl [k5TplB] []]⟩
+def k5MsgD : Wire.Ipfix.Msg := ⟨1002, 0, 1, [.data k5TplB [[⟨[10, 0, 0, 9], false⟩]] []]⟩
+/-- the float text is irrelevant here (no float field) -/
+def k5Ft : Val → Bytes := fun _ => []
+
+/-- **finding K5, model-level witness on real IPFIX octets** (a counterexample for the code as it is, see
+`k5_two_workers_counterexample`): the pipeline's codec is the IPFIX decoder / marshal model (`C05.ipfixCodec`), the three
+datagrams are the RFC 7011 encodings (`Wire.Ipfix.encodeMsg`) of: template 256 := sourceIPv4Address; template 256 :=
+destinationIPv4Address; a data set of template 256 with the value 10.0.0.9, encoded with the exporter's latest definition.
+Under `k5Schedule` (two workers) the collector publishes the value as element 8 (`"I":8`, sourceIPv4Address: the
+superseded definition); decode order 0, 2, 1. -/
+theorem k5_two_workers_counterexample_ipfix :
+    let s := run (K := C05.ipfixCodec k5Ft) { prog := Gen.ipfixWorker } (init (C05.ipfixCodec k5Ft) [] (fun _ => []))
+      (k5Schedule [192, 0, 2, 1] (Wire.Ipfix.encodeMsg k5MsgA) (Wire.Ipfix.encodeMsg k5MsgB) (Wire.Ipfix.encodeMsg k5MsgD))
+    s.log.reverse.filterMap evTag = [(0, 0), (0, 1), (0, 2), (1, 0), (1, 2), (1, 1)] ∧
+    s.delivered = [(2, str ("{\"AgentID\":\"192.0.2.1\",\"Header\":{\"Version\":10,\"Length\":24,\"ExportTime\":1002," ++
+      "\"SequenceNo\":0,\"DomainID\":1},\"DataSets\":[[{\"I\":8,\"V\":\"10.0.0.9\"}]]}"))] := by
+  decide +kernel
+
+/-- non-vacuity of the one-worker theorems, and the contrast: the same three datagrams, ONE worker
+(`oneWorkerSchedule`): decode order 0, 1, 2 and the value is published as element 12 (destinationIPv4Address, the
+latest definition) -/
+example :
+    let s := run (K := C05.ipfixCodec k5Ft) { prog := Gen.ipfixWorker } (init (C05.ipfixCodec k5Ft) [] (fun _ => []))
+      (oneWorkerSchedule [192, 0, 2, 1] (Wire.Ipfix.encodeMsg k5MsgA) (Wire.Ipfix.encodeMsg k5MsgB) (Wire.Ipfix.encodeMsg k5MsgD))
+    s.workers.length = 1 ∧
+    s.log.reverse.filterMap evTag = [(0, 0), (0, 1), (0, 2), (1, 0), (1, 1), (1, 2)] ∧
+    s.delivered = [(2, str ("{\"AgentID\":\"192.0.2.1\",\"Header\":{\"Version\":10,\"Length\":24,\"ExportTime\":1002," ++
+      "\"SequenceNo\":0,\"DomainID\":1},\"DataSets\":[[{\"I\":12,\"V\":\"10.0.0.9\"}]]}"))] := by
+  decide +kernel
+
+/-- the same with the toy codec: one worker, the data is decoded with definition `0xB`, and the decodes ARE the
+sequential semantics -/
+example :
+    let s := run (K := tplToy) { prog := Gen.ipfixWorker } (init tplToy [] (fun _ => []))
+      (oneWorkerSchedule [192, 0, 2, 1] [0, 7, 0xA] [0, 7, 0xB] [1, 7, 42])
+    s.workers.length = 1 ∧ pending s = [] ∧
+    s.delivered = [(2, [7, 0xB, 42])] ∧
+    decodes s.log = decodeAll tplToy [] (arrivals s.log) := by
+  decide
+
+/-! ### one worker: every schedule decodes in arrival order -/
+
+/-- **C04 at the collector, one worker (order)**: for EVERY codec, every `Canonical` worker program (in particular
+`Gen.ipfixWorker`, `C12.ipfixWorker_canonical`), every datagram sequence (arbitrary octets and exporters: the `rxRead`
+action), every initial cache, and EVERY schedule — every state `s` reachable from the initial state — in which at most
+one worker was ever started (`s.workers.length ≤ 1`: workers are only ever appended to `s.workers`, one per
+`Action.spawn`, and a worker that quits stays in the list as `halted`, see `Pipeline.step_workers_length`; so the
+hypothesis says that the schedule contains at most one enabled `spawn`):
+
+the datagrams are decoded in arrival order, and the cache against which the k-th received datagram is decoded is the
+cache obtained by folding `K.decode` over the datagrams received before it, in arrival order, from the initial cache:
+the list of `decoded id cache result` events (oldest first) is the prefix of length `n` of the sequential semantics
+`decodeAll K c0 (arrivals s.log)`; the shared cache in `s` is the sequential cache after these `n` datagrams; and the
+arrivals not decoded yet are exactly the pending ones (held by the worker in front of its `decode`, in the UDP channel,
+in the read loop), in this order.
+
+No hypothesis is needed on WHEN the worker is started (datagrams received earlier wait in the FIFO channel) nor on
+quitting (the quit branch of the worker's `select`, `Action.work i true _` at `recvOrQuit`, is only taken between two
+iterations: decoding stops, `n` stays); a worker that is started before the first datagram and never quits is a special
+case.  With two workers the statement is false: `k5_two_workers_not_in_order`.
+Proof: the invariant `Pipeline.Seq` over `Reach` (`Proofs/PipelineSeq.lean`). -/
+theorem one_worker_in_order (hc : Canonical spec cfg.prog) {c0 : K.Cache} {mem0 : BufId → Bytes} {s : State K}
+    (hr : Reach cfg (init K c0 mem0) s) (h1 : s.workers.length ≤ 1) :
+    ∃ n, n ≤ (arrivals s.log).length ∧
+      decodes s.log = (decodeAll K c0 (arrivals s.log)).take n ∧
+      s.cache = cacheAfter K c0 ((arrivals s.log).take n) ∧
+      (arrivals s.log).drop n = pending s :=
+  (reach_seq hc hr h1).in_order
+
+/-- the same over action lists: every schedule `acts` (any interleaving of read-loop steps with arbitrary datagrams,
+worker steps with or without the quit flag, mirror and MQ consumer steps; disabled actions are skipped) that contains at
+most one `spawn` — in particular `spawn` first, then anything without a `spawn` -/
+theorem one_worker_in_order_schedule (hc : Canonical spec cfg.prog) (c0 : K.Cache) (mem0 : BufId → Bytes)
+    (acts : List Action) (h1 : acts.countP Action.isSpawn ≤ 1) :
+    ∃ n, n ≤ (arrivals (run cfg (init K c0 mem0) acts).log).length ∧
+      decodes (run cfg (init K c0 mem0) acts).log =
+        (decodeAll K c0 (arrivals (run cfg (init K c0 mem0) acts).log)).take n ∧
+      (run cfg (init K c0 mem0) acts).cache =
+        cacheAfter K c0 ((arrivals (run cfg (init K c0 mem0) acts).log).take n) ∧
+      (arrivals (run cfg (init K c0 mem0) acts).log).drop n = pending (run cfg (init K c0 mem0) acts) := by
+  refine one_worker_in_order hc (reach_run cfg _ acts) ?_
+  have := run_workers_length cfg (init K c0 mem0) acts
+  simp only [init, List.length_nil, Nat.zero_add] at this
+  exact Nat.le_trans this h1
+
+/-- once nothing is pending (UDP channel empty, read loop between two datagrams, the worker past its decode) every
+received datagram has been decoded, in order -/
+theorem one_worker_all_decoded (hc : Canonical spec cfg.prog) {c0 : K.Cache} {mem0 : BufId → Bytes} {s : State K}
+    (hr : Reach cfg (init K c0 mem0) s) (h1 : s.workers.length ≤ 1) (hp : pending s = []) :
+    decodes s.log = decodeAll K c0 (arrivals s.log) ∧ s.cache = cacheAfter K c0 (arrivals s.log) := by
+  obtain ⟨n, hn, h2, h3, h4⟩ := one_worker_in_order hc hr h1
+  rw [hp, List.drop_eq_nil_iff] at h4
+  have hn' : n = (arrivals s.log).length := Nat.le_antisymm hn h4
+  subst hn'
+  rw [List.take_length] at h3
+  rw [h2, h3]
+  refine ⟨List.take_of_length_le ?_, rfl⟩
+  rw [decodeAll_length]; exact Nat.le_refl _
+
+/-- **C04 at the collector, one worker (what is published)**: every published payload is the outcome (decode, has
+data, marshal) of the k-th received datagram decoded against the cache the sequential semantics has after the first `k`
+arrivals — `k` being the position of that datagram in the arrival order -/
+theorem one_worker_published_sequential (hc : Canonical spec cfg.prog) {c0 : K.Cache} {mem0 : BufId → Bytes}
+    {s : State K} (hr : Reach cfg (init K c0 mem0) s) (h1 : s.workers.length ≤ 1)
+    (id : Nat) (p : Bytes) (hp : Event.published id p ∈ s.log) :
+    ∃ k d, (arrivals s.log)[k]? = some d ∧ d.id = id ∧
+      outcome K (K.decode (cacheAfter K c0 ((arrivals s.log).take k)) d.addr d.bytes).1 = some p :=
+  published_sequential hc hr h1 hp
+
+end Collector
 
 end Vflow.C04
